@@ -288,6 +288,18 @@ func runC08(r *mc.Run) {
 				}
 				m[f.off+bit/8] ^= 1 << uint(bit%8)
 				add(fmt.Sprintf("mask/%s/%s^bit%d", f.name, start, bit), m, &validate.Options{})
+				// the fixed-bit rules hold whatever else is configured: the same quote with each exact-match
+				// option (including the field itself) pinned to the quote's own value, and with everything pinned
+				all := &validate.Options{}
+				for _, g := range optFields {
+					o := &validate.Options{}
+					g.set(o, append([]byte(nil), m[g.off:g.off+g.len]...))
+					g.set(all, append([]byte(nil), m[g.off:g.off+g.len]...))
+					add(fmt.Sprintf("mask/%s/%s^bit%d/with-%s-pinned", f.name, start, bit, g.name), m, o)
+				}
+				all.TdQuoteBodyOptions.AnyMrTd = [][]byte{append([]byte(nil), m[48+136:48+184]...)}
+				all.TdQuoteBodyOptions.MinimumTeeTcbSvn = append([]byte(nil), m[48:64]...)
+				add(fmt.Sprintf("mask/%s/%s^bit%d/with-everything-pinned", f.name, start, bit), m, all)
 			}
 		}
 	}
